@@ -57,6 +57,14 @@ def fixed_scenarios():
     sc('rename-ipynb-ipynb', [['write', 'x.ipynb', 1], ['commit'], ['mv', 'x.ipynb', 'sub/y.ipynb'], ['commit']], api('HEAD~1', 'HEAD', ''))
     sc('filter-deleted', [['write', 'a.ipynb', 1], ['write', 'b.ipynb', 2], ['commit'], ['write', 'a.ipynb', 3], ['rm', 'b.ipynb']],
        api('HEAD', 'WORKTREE', ''), filter='*.ipynb')
+    sc('filter-deleted-subdir', [['write', 'sub/a.ipynb', 1], ['write', 'sub/b.ipynb', 2], ['commit'], ['write', 'sub/a.ipynb', 3], ['rm', 'sub/b.ipynb']],
+       api('HEAD', 'WORKTREE', 'sub'), filter='*.ipynb')
+    sc('staged-then-modified', [['write', 'a.ipynb', 1], ['write', 'b.ipynb', 2], ['commit'], ['write', 'a.ipynb', 3], ['add_all'], ['write', 'a.ipynb', 4], ['write', 'b.ipynb', 5]],
+       api('INDEX', 'WORKTREE', ''))
+    sc('staged-then-modified-cached', [['write', 'a.ipynb', 1], ['write', 'b.ipynb', 2], ['commit'], ['write', 'a.ipynb', 3], ['add_all'], ['write', 'a.ipynb', 4], ['write', 'b.ipynb', 5]],
+       api('HEAD', 'INDEX', ''))
+    sc('deep-subdir-two-paths', two + [['write', 'sub/deep/d.ipynb', 9], ['write', 'sub/deep/e.ipynb', 10], ['commit'], ['write', 'sub/deep/d.ipynb', 11], ['write', 'sub/deep/e.ipynb', 12], ['commit']],
+       api('HEAD~1', 'HEAD', 'sub/deep', ['d.ipynb', 'e.ipynb']))
     sc('filter-modified', [['write', 'a.ipynb', 1], ['commit'], ['write', 'a.ipynb', 3]], api('HEAD', 'WORKTREE', ''), filter='*.ipynb')
     cli = lambda argv, a, b, paths, cwd='': {'mode': 'cli', 'argv': argv, 'argv_pos': argv, 'ref_a': a, 'ref_b': b, 'paths': paths, 'cwd': cwd}
     sc('cli-three-paths', two, cli(['a.ipynb', 'sub/b.ipynb', 'sub/c.ipynb'], 'HEAD', 'WORKTREE', ['a.ipynb', 'sub/b.ipynb', 'sub/c.ipynb']))
@@ -64,6 +72,8 @@ def fixed_scenarios():
     sc('cli-ref-two-paths', two, cli(['HEAD', 'a.ipynb', 'sub/b.ipynb'], 'HEAD', 'WORKTREE', ['a.ipynb', 'sub/b.ipynb']))
     sc('cli-none', two, cli([], 'HEAD', 'WORKTREE', None))
     sc('cli-two-refs', two + [['commit']], cli(['HEAD~1', 'HEAD'], 'HEAD~1', 'HEAD', None))
+    sc('cli-word-is-tag-and-directory', [['write', 'v1/a.ipynb', 1], ['write', 'b.ipynb', 2], ['commit'], ['tag', 'v1'], ['write', 'v1/a.ipynb', 3], ['write', 'b.ipynb', 4], ['commit'],
+                                         ['write', 'v1/a.ipynb', 5], ['write', 'b.ipynb', 6]], cli(['v1'], 'HEAD', 'WORKTREE', ['v1']))
     sc('cli-subdir-ref-paths', two, cli(['HEAD', 'b.ipynb', 'c.ipynb'], 'HEAD', 'WORKTREE', ['b.ipynb', 'c.ipynb'], cwd='sub'))
     return out
 
@@ -500,10 +510,56 @@ def own_build(b):
         fcntl.flock(lock, fcntl.LOCK_UN); lock.close()
 
 
+def isolated_build():
+    """C17_ISOLATED=1 (development aid, used for the mutation experiments while other members' builds hold the shared
+    lock): compile this property's closure in a private copy of the five files, with facts generated from NBDIME_REPO, and
+    point the proof accounting at it.  Nothing in the shared tree is read after the copy or written at all."""
+    d = tempfile.mkdtemp(prefix='nbv_c17_iso_')
+    b = core.BuildResult(); b.model_ok = True
+    for f in OWN_CLOSURE:
+        os.makedirs(os.path.join(d, os.path.dirname(f)), exist_ok=True)
+        if not f.startswith('Gen/'): shutil.copy(os.path.join(core.COQ, f), os.path.join(d, f))
+    p = subprocess.run([os.path.join(core.VERIF, 'tools', 'gen', 'gen_gitrefs.py'), '--stdout'], capture_output=True, text=True,
+                       env=dict(os.environ, NBDIME_REPO=core.REPO))
+    core.COQ = d
+    if p.returncode != 0:
+        b.ok = False; b.gen_error = (p.stderr + p.stdout)[-2000:]; return b, d
+    open(os.path.join(d, 'Gen', 'GitRefsFacts.v'), 'w').write(p.stdout)
+    for f in OWN_CLOSURE:
+        q = subprocess.run(['timeout', '600', 'coqc', '-Q', '.', 'NB', '-w', '-notation-overridden,-deprecated-hint-without-locality', f],
+                           cwd=d, capture_output=True, text=True)
+        if q.returncode != 0:
+            b.ok = False; b.failed_file = f; b.log = (q.stdout + q.stderr)[-3000:]
+            os.utime(os.path.join(d, f))            # make the closure count as stale
+            break
+    return b, d
+
+
 def run(tier, seed):
     chk = core.Check(PROP, tier, seed)
-    b = own_build(core.build())
-    chk.proof_obligations('Props/C17.v', b)
+    iso = None
+    if os.environ.get('C17_ISOLATED') == '1':
+        b, iso = isolated_build()
+        chk.notes.append('C17_ISOLATED=1: proof obligations checked in a private copy of the closure')
+    else:
+        b = own_build(core.build())
+    try:
+        return run_checked(chk, b, tier)
+    finally:
+        if iso: shutil.rmtree(iso, ignore_errors=True)
+
+
+def coqchk(chk):
+    """thorough tier: re-check the compiled closure of Props/C17.vo with the independent checker"""
+    p = subprocess.run(['timeout', '900', 'coqchk', '-silent', '-o', '-Q', '.', 'NB', 'NB.Props.C17'], cwd=core.COQ, capture_output=True, text=True)
+    out = p.stdout + p.stderr
+    ok = p.returncode == 0 and re.search(r'Axioms:\s*<none>', out) is not None
+    chk.cov['trusted_base'].append('coqchk -o NB.Props.C17: ' + ('ok, axioms <none>' if ok else 'FAILED'))
+    if not ok: chk.broken_obligation('coqchk', out[-800:])
+
+
+def run_checked(chk, b, tier):
+    if chk.proof_obligations('Props/C17.v', b) and tier == 'thorough': coqchk(chk)
     cases = gen_cases(chk, tier)
     results = run_scenarios(cases)
     hist = {}; nontrivial = set(); shrunk = set()
@@ -520,7 +576,10 @@ def run(tier, seed):
             known = any(f.get('status') == 'known' and f.get('signature') == sig for f in chk.findings)
             if not known and not sig.startswith('harness:') and sig not in shrunk and len(shrunk) < 3:
                 shrunk.add(sig)
-                try: case = strip(shrink_case(dict(case, exotic=sc.get('exotic')), sig))
+                try:
+                    small = shrink_case(dict(case, exotic=sc.get('exotic')), sig)
+                    again = [d for s2, d in judge(small, run_scenarios([small], shards=1)[0]) if s2 == sig]
+                    if again: case, detail = strip(small), again[0]
                 except Exception: pass
             chk.violation(sig, case, detail)
     # T1
